@@ -525,7 +525,14 @@ def oracle(case, real, backend=None):
             if not o(ts[k]) <= o(t) <= o(ts[k + 1]):
                 continue
             if t == ts[k] and x == case.states[k] and abs(g[k]) < case.tol:
-                ok = True       # a sample lying on the surface
+                # a sample lying on the surface; for a directed section it counts only if a neighbouring value is compatible with the direction
+                # (documented rule of `_on_surface_indices`: next value on the target side, or previous value on the source side)
+                if d is None:
+                    ok = True
+                elif d == 1:
+                    ok = ok or (g[k + 1] >= 0) or (k >= 1 and g[k - 1] <= 0)
+                else:
+                    ok = ok or (g[k + 1] <= 0) or (k >= 1 and g[k - 1] >= 0)
             if weak(k):
                 lam = (t - ts[k]) / (ts[k + 1] - ts[k])
                 xi = [a + lam * (b - a) for a, b in zip(case.states[k], case.states[k + 1])]
@@ -839,6 +846,96 @@ def public_path(ctx, backend):
         ctx.obligations["public-path"] = False
 
 
+def pipeline_paths(ctx, backend):
+    """(1) several trajectories through the public synodic pipeline with 1 and with 3 workers: the hits labelled with trajectory index j are
+    exactly what the backend reports for trajectory j (per trajectory: "exactly one hit for each sign change ... in time order per trajectory");
+    (2) ONE SynodicMap object asked for direction=+1 and then direction=-1 (its service caches results): each answer is the backend's for the
+    direction that was asked for."""
+    from hiten.algorithms.poincare.synodic.base import SynodicMapPipeline
+    from hiten.algorithms.poincare.synodic.config import SynodicMapConfig
+    from hiten.algorithms.poincare.synodic.options import SynodicMapOptions
+    from hiten.algorithms.types.configs import RefineConfig
+    from hiten.algorithms.types.options import RefineOptions, WorkerOptions
+    from hiten.algorithms.types.states import Trajectory
+    rng = ctx.rng
+
+    def spiral(w, phi, n=401, tmax=6.0):
+        t = np.linspace(0.0, tmax, n)
+        r = 1.0 + 0.05 * t
+        th = w * t + phi
+        X = np.column_stack((r * np.cos(th), r * np.sin(th), 0.01 * t, 0.05 * np.cos(th) - r * w * np.sin(th),
+                             0.05 * np.sin(th) + r * w * np.cos(th), 0.01 * np.ones_like(t)))
+        return t, X
+
+    class Source:
+        def __init__(self, trajs):
+            self.trajectories = trajs
+
+    arrays = [spiral(rng.uniform(0.8, 3.5), rng.uniform(0, 6.28)) for _ in range(5)]
+    off = 0.3
+    kw = dict(normal=[0, 1, 0, 0, 0, 0], offset=off, plane_coords=("x", "vx"), interp_kind="linear", segment_refine=1, tol_on_surface=1e-13,
+              dedup_time_tol=1e-9, dedup_point_tol=1e-12, max_hits_per_traj=None, newton_max_iter=4)
+    for direction in (1, None):
+        want = [np.array([h.time for h in backend.detect_on_trajectory(t, X, direction=direction, **kw)]) for t, X in arrays]
+        for nw in (1, 3):
+            try:
+                cfg = SynodicMapConfig(section_axis="y", section_offset=off, plane_coords=("x", "vx"), direction=direction,
+                                       interp_kind=RefineConfig(interp_kind="linear"))
+                opts = SynodicMapOptions(refine=RefineOptions(segment_refine=1, tol_on_surface=1e-13, dedup_time_tol=1e-9, dedup_point_tol=1e-12),
+                                         workers=WorkerOptions(n_workers=nw))
+                res = SynodicMapPipeline.with_default_engine(cfg).generate(Source([Trajectory(t, X) for t, X in arrays]), opts)
+                times = np.asarray(res.times, dtype=float)
+                tidx = np.asarray(res.trajectory_indices, dtype=int)
+            except Exception:
+                import traceback
+                ctx.broken.append(("pipeline-paths", traceback.format_exc()[-800:]))
+                ctx.obligations["pipeline-paths"] = False
+                return
+            ctx.case(("pipeline", direction, nw), nontrivial=nw > 1, kind="pipeline:workers%d" % nw)
+            for j in range(len(arrays)):
+                mine = times[tidx == j]
+                if not (len(mine) == len(want[j]) and (len(mine) == 0 or float(np.max(np.abs(np.sort(mine) - want[j]))) == 0.0) and np.all(np.diff(mine) > 0)):
+                    ctx.violation("pipeline-trajectory-bookkeeping",
+                                  "public synodic pipeline, %d workers, direction=%r: the hits labelled with trajectory index %d (times %r) are not the hits of that trajectory (%r)" % (
+                                      nw, direction, j, mine[:6].tolist(), want[j][:6].tolist()),
+                                  {"n_workers": nw, "direction": direction, "trajectory": j, "hits_labelled": mine.tolist(), "hits_of_trajectory": want[j].tolist(),
+                                   "trajectories": "five spirals r=1+0.05t, theta=w t+phi, plane y=0.3", "w_phi": "seeded"})
+                    return
+    # (2) direction history on one SynodicMap object
+    try:
+        from hiten import System
+        from hiten.system.maps import SynodicMap
+        from hiten.system.orbits import GenericOrbit
+        sysm = System.from_bodies("earth", "moon")
+        l1 = sysm.get_libration_point(1)
+        s0 = np.array([l1.position[0] + 0.01, 0.0, 0.0, 0.0, 0.0, 0.0])
+        orbit = GenericOrbit(l1, initial_state=s0)
+        orbit.period = 2.5
+        orbit.propagate(steps=400)
+        smap = SynodicMap(orbit)
+        hist = []
+        out = {}
+        for d in (1, -1, 1):
+            hist.append(d)
+            res = smap.compute(section_axis="y", section_offset=0.0, plane_coords=("x", "vx"), direction=d)
+            out[tuple(hist)] = np.asarray(res.times if res.times is not None else [], dtype=float)
+        a, b, c = out[(1,)], out[(1, -1)], out[(1, -1, 1)]
+        fresh = SynodicMap(orbit).compute(section_axis="y", section_offset=0.0, plane_coords=("x", "vx"), direction=-1)
+        fb = np.asarray(fresh.times if fresh.times is not None else [], dtype=float)
+        ctx.case(("direction-history",), nontrivial=True, kind="public-path:direction-history")
+        same = lambda x, y: len(x) == len(y) and (len(x) == 0 or float(np.max(np.abs(x - y))) == 0.0)
+        if not (same(b, fb) and same(c, a)):
+            ctx.violation("public-path-direction-history",
+                          "SynodicMap.compute(direction=-1) after compute(direction=+1) on the same object returns %d hits at %r; a fresh object returns %d hits at %r" % (
+                              len(b), b[:4].tolist(), len(fb), fb[:4].tolist()),
+                          {"history": ["compute(direction=+1)", "compute(direction=-1)", "compute(direction=+1)"], "times_after_history": b.tolist(),
+                           "times_fresh_object": fb.tolist(), "times_direction_plus": a.tolist()})
+    except Exception:
+        import traceback
+        ctx.broken.append(("pipeline-paths:direction-history", traceback.format_exc()[-800:]))
+        ctx.obligations["pipeline-paths:direction-history"] = False
+
+
 PROP_MODULES = ["HitenModel.Props.C15"]
 SRC_MODULES = ["HitenModel.Props.C15", "HitenModel.Gen.C15", "HitenModel.Core.C15", "HitenModel.Lemmas.C15",
                "HitenModel.Lemmas.C15Gen", "HitenModel.Lemmas.C15Real", "HitenModel.Lemmas.REReal", "HitenModel.Core.RE"]
@@ -865,6 +962,8 @@ def run(ctx):
     convergence(ctx, backend)
     crtbp_convergence(ctx, backend)
     public_path(ctx, backend)
+    if not ctx.violations:
+        pipeline_paths(ctx, backend)
     ctx.rule = ("exact: every sign pattern in {-,0,+}^N (N<=6 quick / <=8 thorough, sampled above) with magnitudes {1,3} on dyadic "
                 "non-uniform grids x directions {None,+1,-1} x tol {2^-10,0,2} x dedup tolerances {0,2^-20,large} x max_hits x "
                 "segment_refine {0,1,3}; approx: random float trajectories, refine 0..6, cubic with 0..3 Newton updates; a case is "
